@@ -262,6 +262,14 @@ fn fam_deflate(s: &Script, st: &mut Stats) -> Result<RunInfo, Violation> {
             k += 1;
             if special == 1 {
                 // mz_deflateReset in the middle: afterwards the stream behaves like a fresh one (C18)
+                if cfg!(miri) {
+                    // as before *End (below): the shim builds slice views of next_in/next_out that it never
+                    // uses, and the buffers of the previous call are already freed in the Miri build
+                    strm.next_in = std::ptr::null();
+                    strm.avail_in = 0;
+                    strm.next_out = std::ptr::null_mut();
+                    strm.avail_out = 0;
+                }
                 let rc = c::mz_deflateReset(&mut strm);
                 if rc != 0 {
                     return viol("C17.reset_ok", format!("mz_deflateReset = {}", rc));
@@ -562,8 +570,14 @@ fn fam_oneshot(s: &Script, st: &mut Stats) -> Result<RunInfo, Violation> {
             if rc2 != exp2 {
                 return viol("C17.same_as_rust", format!("mz_uncompress(dest {} bytes, src {} bytes) = {}, the Rust sequence gives {}", ucap, src.len(), rc2, exp2));
             }
-            if rc2 == 0 && (ulen as usize != rr.bytes_written || gdst.bytes()[..rr.bytes_written] != ro[..rr.bytes_written] || ro[..rr.bytes_written] != plain[..]) {
-                return viol("C17.same_bytes_as_rust", "mz_uncompress output differs".into());
+            // (a stream with one flipped bit may legitimately decode to other bytes with the same Adler-32 - about
+            // one in 10^7 short inputs does; what C17 states is that C and Rust agree, so the plaintext is compared
+            // only when the stream was not damaged)
+            if rc2 == 0 && s.c("corrupt") != 0 && ro[..rr.bytes_written] != plain[..] {
+                st.inc("probe.damaged_stream_with_colliding_checksum");
+            }
+            if rc2 == 0 && (ulen as usize != rr.bytes_written || gdst.bytes()[..rr.bytes_written] != ro[..rr.bytes_written] || (s.c("corrupt") == 0 && ro[..rr.bytes_written] != plain[..])) {
+                return viol("C17.same_bytes_as_rust", format!("mz_uncompress output differs: dest_len {} vs Rust {} (plaintext {}), C bytes equal Rust bytes: {}, Rust bytes equal plaintext: {}", ulen, rr.bytes_written, n, gdst.bytes()[..rr.bytes_written.min(ulen as usize)] == ro[..rr.bytes_written.min(ulen as usize)], ro[..rr.bytes_written] == plain[..]));
             }
             h.u(rc2 as u64);
         }
